@@ -13,6 +13,7 @@ tests to count).  Survivors are triaged by hand: equivalent / harmless, or a gap
 import ast, json, os, subprocess, sys, copy, glob
 sys.path.insert(0, '/verif')
 OUT = '/tmp/mutscan'
+GITBASE = os.environ.get('MUTSCAN_BASE', 'c957cba')
 ROOT = '/repo'
 
 
@@ -242,7 +243,7 @@ def report(prop=None):
         if m['qual'] != cur:
             cur = m['qual']
             print('\n## %s  %s' % (cur, m['props']))
-        text = open(os.path.join(ROOT, m['file'])).read().split('\n')
+        text = subprocess.run(['git', '-C', ROOT, 'show', GITBASE + ':' + m['file']], capture_output=True, text=True).stdout.split('\n')
         l1, c1, l2, c2 = m['span']
         old = '\n'.join(text[l1 - 1:l2]).strip()
         print('  #%d %s L%d: %s  ==>  %s %s' % (m['id'], m['op'], m['line'], ' '.join(old.split())[:110], m['new'][:80],
